@@ -43,9 +43,27 @@ func c11Fnv(s string) uint64 {
 	return h
 }
 
-func c11Dump(t *Trie) string {
-	d := fmt.Sprintf("L=%s B=%s lab=%s rk=%s sl=%s", c11Words64(t.leaves), c11Words64(t.labelBitmap),
-		c11BlDump(t.labels), c11BlDump(t.ranksBL), c11BlDump(t.selectsBL))
+// layout dump: DIAGNOSTIC only (the check compares the HasPrefix answers; a different but equivalent
+// layout — other select stride, plain []int32 caches, other label width — is not a violation)
+func c11Dump(t *Trie) (out string) {
+	defer func() {
+		if recover() != nil {
+			out = "dump:unavailable"
+		}
+	}()
+	v := reflect.ValueOf(t).Elem()
+	words := func(name string) string {
+		f := v.FieldByName(name)
+		p := make([]string, f.Len())
+		for i := 0; i < f.Len(); i++ {
+			p[i] = strconv.FormatUint(f.Index(i).Uint(), 16)
+		}
+		return strings.Join(p, ".")
+	}
+	bl := func(name string) string {
+		return c11BlDump((*bitlist.CompactBitList)(v.FieldByName(name).UnsafePointer()))
+	}
+	d := fmt.Sprintf("L=%s B=%s lab=%s rk=%s sl=%s", words("leaves"), words("labelBitmap"), bl("labels"), bl("ranksBL"), bl("selectsBL"))
 	if len(d) <= 400 {
 		return "dump:" + d
 	}
@@ -246,7 +264,7 @@ func c11RunCase(st *VStream, stats *VStats, alphaTag string, keys, words []strin
 		}
 		stats.Add("trie.probe.hit", hits)
 		stats.Add("trie.probe.total", len(words))
-		sb.WriteString(" ")
+		sb.WriteString(" | ")
 		sb.WriteString(c11Dump(t))
 		return sb.String()
 	})
@@ -350,11 +368,72 @@ func TestVerifC11Trie(t *testing.T) {
 				keys[i], keys[j] = keys[j], keys[i]
 			}
 		}
+		if size > stats.C["trie.keys.max"] {
+			stats.C["trie.keys.max"] = size
+		}
 		nw := 40
 		if size > 1000 {
 			nw = 400
 		}
 		c11RunCase(st, stats, alphaTag, keys, c11Probes(r, keys, alpha, nw, stats))
+	}
+	// geosite scale: every key is probed (exact, minus its last byte, plus one byte); the answer is
+	// a count and a hash of the answer string, so a single dropped or merged key shows
+	allCase := func(n int) {
+		keys := make([]string, 0, n)
+		for len(keys) < n {
+			var k string
+			switch {
+			case len(keys) > 10 && r.Chance(0.05):
+				k = keys[r.Intn(len(keys))] // duplicate: common.Deduplicate has work
+			case len(keys) > 10 && r.Chance(0.3):
+				k = strings.TrimRight(keys[r.Intn(len(keys))], ".^") + "." + c11RandLabel(r) + []string{".", "^"}[r.Intn(2)]
+			default:
+				k = c11RandLabel(r) + "." + c11RandLabel(r) + strconv.Itoa(r.Intn(1000000)) + []string{".", "^"}[r.Intn(2)]
+			}
+			keys = append(keys, k)
+		}
+		op := fmt.Sprintf("trieall d %s", c11HexList(keys))
+		res := VRecover(func() string {
+			t, err := NewTrie(append([]string(nil), keys...), domainCharsForC11)
+			if err != nil {
+				return "err:" + err.Error()
+			}
+			var sb strings.Builder
+			hits := 0
+			one := func(w string) {
+				if t.HasPrefix(w) {
+					sb.WriteByte('1')
+					hits++
+				} else {
+					sb.WriteByte('0')
+				}
+			}
+			for _, k := range keys {
+				one(k)
+				if len(k) > 0 {
+					one(k[:len(k)-1])
+				} else {
+					one(k)
+				}
+				one(k + "0")
+			}
+			return fmt.Sprintf("n=%d hits=%d h=%x", 3*len(keys), hits, c11Fnv(sb.String()))
+		})
+		if strings.HasPrefix(res, "crash:") {
+			res = "panic"
+		}
+		st.Emit(op, res)
+		if n > stats.C["trie.keys.max"] {
+			stats.C["trie.keys.max"] = n
+		}
+		stats.Add("trie.probe.all_keys", 3*n)
+	}
+	if VThorough() {
+		allCase(200000)
+		allCase(60000)
+	} else {
+		allCase(20000)
 	}
 	stats.Write("c11trie")
 }
